@@ -89,6 +89,7 @@ class SubtreeSite:
     assigned: bool  # `target = get_all_submodules_of(..)` (exactly the sub-tree) as opposed to accumulated into target
     loop: ast.AST | None  # the For / comprehension binding x
     guard: Formula | None = None
+    extra: list = field(default_factory=list)  # filters of a filtered copy of the collection, renamed to x
 
 
 @dataclass
@@ -743,14 +744,15 @@ def _worklist_sources(fn: ast.AST, worklist_expr: ast.AST, outer: ast.AST, singl
     return srcs, inits
 
 
-def _collection_of(e: ast.AST, params: list[str], single: dict[str, ast.expr], depth: int = 0) -> tuple[str, list[str]] | None:
-    """(collection parameter, elements removed before iterating) for an iterated expression, resolving locals."""
+def _collection_of(e: ast.AST, params: list[str], single: dict[str, ast.expr], depth: int = 0, filters: list | None = None) -> tuple[str, list[str]] | None:
+    """(collection parameter, elements removed before iterating) for an iterated expression, resolving locals; the filters of a
+    filtered copy (`[x for x in P if c]`) are appended to `filters` as (condition, variable)."""
     e = strip(e)
     if isinstance(e, ast.Name):
         if e.id in params:
             return e.id, []
         if e.id in single and depth < 4:
-            return _collection_of(single[e.id], params, single, depth + 1)
+            return _collection_of(single[e.id], params, single, depth + 1, filters)
         return None
     removed = None
     inner = None
@@ -759,13 +761,16 @@ def _collection_of(e: ast.AST, params: list[str], single: dict[str, ast.expr], d
     elif isinstance(e, ast.Call) and isinstance(e.func, ast.Attribute) and e.func.attr == "difference" and len(e.args) == 1:
         inner, removed = e.func.value, e.args[0]
     if inner is not None:
-        got = _collection_of(inner, params, single, depth + 1)
+        got = _collection_of(inner, params, single, depth + 1, filters)
         r = strip(removed)
         if got is not None and isinstance(r, (ast.Set, ast.List, ast.Tuple)) and all(isinstance(x, ast.Name) for x in r.elts):
             return got[0], got[1] + [x.id for x in r.elts]
         return None
-    if isinstance(e, _COMPS) and len(e.generators) == 1 and isinstance(e.elt, ast.Name) and isinstance(e.generators[0].target, ast.Name) and e.elt.id == e.generators[0].target.id and not e.generators[0].ifs:
-        return _collection_of(e.generators[0].iter, params, single, depth + 1)
+    if isinstance(e, _COMPS) and len(e.generators) == 1 and isinstance(e.elt, ast.Name) and isinstance(e.generators[0].target, ast.Name) and e.elt.id == e.generators[0].target.id and (not e.generators[0].ifs or filters is not None):
+        got = _collection_of(e.generators[0].iter, params, single, depth + 1, filters)
+        if got is not None and filters is not None:
+            filters += [(c, e.generators[0].target.id) for c in e.generators[0].ifs]
+        return got
     return None
 
 
@@ -827,9 +832,11 @@ def _subtree_sites(m: SearchModel, single: dict[str, ast.expr]) -> list[SubtreeS
         bl = _binding_loop(arg, c) if arg else None
         if bl is not None:
             site.loop = bl[0]
-            got = _collection_of(bl[1], params, single)
+            flt: list = []
+            got = _collection_of(bl[1], params, single, 0, flt)
             if got is not None:
                 site.collection, site.implicit_skips = got
+                site.extra = [(_renamed(c_, var, arg), True) for c_, var in flt]
         elif arg in params:
             site.param = arg
         elif arg in single:
@@ -837,7 +844,7 @@ def _subtree_sites(m: SearchModel, single: dict[str, ast.expr]) -> list[SubtreeS
             v = strip(single[arg])
             if isinstance(v, ast.Name) and v.id in params:
                 site.param = v.id
-        site.guard = m.guard_of(c)
+        site.guard = m.guard_of(c, site.extra)
         out.append(site)
     return out
 
@@ -1100,6 +1107,7 @@ def build(repo: Repo, fi: FuncInfo) -> SearchModel | None:
             ids = _parent_ids(val, v.param_names, {k: x for k, x in single.items() if k != tgt})
             if ids is not None:
                 model.parent_id_sets[tgt] = ids
+    _loop_built_parent_ids(model, sites, single)
     for n in ast.walk(fn):
         if isinstance(n, ast.Call) and isinstance(n.func, ast.Attribute) and n.func.attr in ("add", "remove", "discard") and len(n.args) == 1 and dotted(n.func.value):
             recv = dotted(n.func.value)
@@ -1115,6 +1123,58 @@ def build(repo: Repo, fi: FuncInfo) -> SearchModel | None:
         model.role = "explicit"
     _subject_object(model)
     return model
+
+
+def _is_empty_collection(e: ast.AST) -> bool:
+    e = strip(e)
+    if isinstance(e, (ast.List, ast.Tuple)) and not e.elts:
+        return True
+    return isinstance(e, ast.Call) and isinstance(e.func, ast.Name) and e.func.id in ("set", "list") and not e.args and not e.keywords
+
+
+def _loop_built_parent_ids(m: SearchModel, sites: list, single: dict[str, ast.expr]) -> None:
+    """`x = []` followed by `x.append(f.identifier)` exactly when `f.identifier_is_parent_module`, for f over a literal sequence of
+    filter parameters (loop or unrolled): x holds the parent-module identifiers of those parameters."""
+    from core.guards import equivalent
+
+    fn = m.fi.node
+    params = m.fi.param_names
+    by_recv: dict[str, list] = {}
+    for s_ in sites:
+        by_recv.setdefault(s_.receiver, []).append(s_)
+    shrinking = {dotted(n.func.value) for n in ast.walk(fn) if isinstance(n, ast.Call) and isinstance(n.func, ast.Attribute) and n.func.attr in ("remove", "discard", "clear", "pop", "difference_update")}
+    for x, ss in by_recv.items():
+        if x in m.parent_id_sets or x in shrinking or not x.isidentifier() or x in params:
+            continue
+        inits = [n for n in ast.walk(fn) if (isinstance(n, ast.Assign) and len(n.targets) == 1 and isinstance(n.targets[0], ast.Name) and n.targets[0].id == x) or (isinstance(n, ast.AnnAssign) and isinstance(n.target, ast.Name) and n.target.id == x and n.value is not None)]
+        if len(inits) != 1 or not _is_empty_collection(inits[0].value):
+            continue
+        ids: list[str] = []
+        ok = True
+        for s_ in ss:
+            for elt, comp in s_.elements:
+                t = dotted(elt.value) if isinstance(elt, ast.Attribute) and elt.attr == NODE_ATTR else dotted(elt.args[0]) if isinstance(elt, ast.Call) and isinstance(elt.func, ast.Name) and elt.func.id == "get_node" and len(elt.args) == 1 else ""
+                if not t:
+                    ok = False
+                    continue
+                if t in params:
+                    ps, outer_g = [t], None
+                else:
+                    bl = _binding_loop(t, elt)
+                    ps = _param_seq(bl[1], params, single) if bl is not None else None
+                    outer_g = m.guard_of(bl[0] if isinstance(bl[0], ast.stmt) else stmt_of(bl[0])) if bl is not None else None
+                if not ps:
+                    ok = False
+                    continue
+                g = m.guard_of(elt)
+                flag = atom(f"bool({t}.{PARENT_FLAG})")
+                not_none = f_not(atom(f"{t}.{NODE_ATTR} is None"))
+                want = f_and([outer_g, flag]) if outer_g is not None else flag
+                if not equivalent(g, want, not_none):
+                    ok = False
+                ids += [p_ for p_ in ps if p_ not in ids]
+        if ok and ids:
+            m.parent_id_sets[x] = ids
 
 
 def _classify_params(m: SearchModel, single: dict[str, ast.expr]) -> None:
@@ -1297,6 +1357,12 @@ def opaque_set(m: SearchModel, name: str) -> bool:
             vals.append(n.value)
     if not vals:
         return True
+    for n in ast.walk(m.fi.node):
+        # built up by statements the model did not recognise as one of its known constructions
+        if isinstance(n, ast.Call) and isinstance(n.func, ast.Attribute) and dotted(n.func.value) == name and n.func.attr in ("add", "append", "update", "extend", "remove", "discard", "difference_update", "intersection_update", "clear", "pop"):
+            return True
+        if isinstance(n, ast.AugAssign) and dotted(n.target) == name:
+            return True
     for v in vals:
         for c in ast.walk(v):
             if isinstance(c, ast.Call):
